@@ -392,6 +392,9 @@ func buildLedger(e *Env, sp *evSpec) *evLedger {
 	// ingestion instants are known when every row with a usable timestamp was seen entering
 	// Watermark.UpdateEventTime exactly once
 	l.IngestKnown = len(e.IngestT) == nUsable
+	if sp.Idle > 0 && !l.IngestKnown {
+		e.Probe("idle_clause_not_judged_ingest_instants_unknown")
+	}
 	usableIdx := 0
 	idleRisk := false
 	var lastIngest time.Duration = -1
